@@ -45,8 +45,8 @@ const ITER_CONSUMERS: &[(&str, &str)] = &[
 const ITER_SOURCES: &[(&str, &str)] = &[
     ("generator", "(function*(){ for (var i = 0; i < 6; i++) { churn(); yield mk(i); } })()"),
     ("generator-locals", "(function*(){ var keep = mk(9); for (var i = 0; i < 5; i++) { var t = mk(i); churn(); yield t; } yield keep; })()"),
-    ("custom-iterable", "({ [Symbol.iterator]: function(){ var i = 0; return { next: function(){ churn(); return i < 6 ? {value: mk(i++), done: false} : {value: undefined, done: true}; } }; } })"),
-    ("custom-iterator-with-return", "({ [Symbol.iterator]: function(){ var i = 0; return { next: function(){ churn(); return {value: mk(i++), done: i > 5}; }, return: function(){ churn(); return {done: true}; } }; } })"),
+    ("custom-iterable", "({ [Symbol.iterator]: function(){ var i = 0; return { next: function(){ churn(); var t = i++; return t < 6 ? {value: mk(t), done: false} : {value: undefined, done: true}; } }; } })"),
+    ("custom-iterator-with-return", "({ [Symbol.iterator]: function(){ var i = 0; return { next: function(){ churn(); var t = i++; return {value: mk(t), done: t >= 5}; }, return: function(){ churn(); return {done: true}; } }; } })"),
     ("map-values", "new Map([0, 1, 2, 3, 4].map(function(i){ return [i, mk(i)]; })).values()"),
     ("set-of-fresh", "new Set([0, 1, 2, 3, 4].map(mk))"),
     ("array-entries", "[0, 1, 2, 3].map(mk).entries()"),
@@ -126,9 +126,57 @@ const OTHER_WALKS: &[(&str, &str)] = &[
     ("regexp-matchall", "(function(){ var out = []; for (var m of 'a1b2c3'.matchAll(/[a-c](\\d)/g)) { churn(); out.push([m[0], m[1], m.index, mk(Number(m[1]))]); } return out; })()"),
 ];
 
+/// `mk(ARG)` written out as an object literal at the place of use. A value returned from a
+/// call stays rooted in the calling frame for a while (the VM guards return values
+/// generously), which would hide exactly the window these programs are after; a literal is
+/// referenced by nothing but the place it is stored in.
+fn expand_mk(src: &str) -> String {
+    let b = src.as_bytes();
+    let mut out = String::with_capacity(src.len() * 2);
+    let mut i = 0;
+    while i < b.len() {
+        let at_mk = src[i..].starts_with("mk(") && (i == 0 || !(b[i - 1].is_ascii_alphanumeric() || b[i - 1] == b'_' || b[i - 1] == b'.')) && !src[..i].ends_with("function ");
+        if at_mk {
+            // balanced argument
+            let mut depth = 0;
+            let mut j = i + 2;
+            let mut end = None;
+            while j < b.len() {
+                match b[j] {
+                    b'(' => depth += 1,
+                    b')' => {
+                        depth -= 1;
+                        if depth == 0 {
+                            end = Some(j);
+                            break;
+                        }
+                    }
+                    _ => {}
+                }
+                j += 1;
+            }
+            if let Some(e) = end {
+                let arg = &src[i + 3..e];
+                if !arg.contains("++") && !arg.contains("--") && !arg.contains("mk(") {
+                    out.push_str(&format!("({{i: ({a}), s: 'v' + ({a}), a: [({a}), {{d: ({a})}}]}})", a = arg));
+                    i = e + 1;
+                    continue;
+                }
+            }
+        }
+        let ch = src[i..].chars().next().unwrap();
+        out.push(ch);
+        i += ch.len_utf8();
+    }
+    out
+}
+
+const BUILD: &str = "function build(n){ var a = []; for (var i = 0; i < n; i++) { a.push({i: i, s: 'v' + i, a: [i, {d: i}]}); } return a; }";
+
 pub fn items() -> Vec<Item> {
     let mut v = Vec::new();
     let mut push = |id: String, body: String| {
+        let body = expand_mk(&body);
         v.push(Item { id, call: format!("__try(function(){{ {} }})", body), human: body });
     };
     for (sn, source) in ITER_SOURCES {
@@ -151,7 +199,7 @@ pub fn items() -> Vec<Item> {
                 let expr = method.replace("CB", &cb);
                 push(
                     format!("transit.array.{}.{}.{}", mn, dn, k),
-                    format!("{} var calls = -1; var a = []; for (var i = 0; i < 8; i++) a.push(mk(i)); var r = {}; churn(); return __show(r);", HELPERS, expr),
+                    format!("{} {} var calls = -1; var a = build(8); var r = {}; churn(); return __show(r);", HELPERS, BUILD, expr),
                 );
             }
         }
